@@ -77,6 +77,25 @@ class Model:
                 return k if self.defines(k, key) is not None else None
         return None
 
+    def copy_shadow(self, cls: str, key: str) -> Optional[str]:
+        """Name of a class on the MRO of ``cls`` whose *copy* of an inherited member would be found before the class that
+        really provides ``key`` for ``cls`` - or None.
+
+        (icontract installs wrappers of inherited members on a class that has invariants when the member it inherits is not
+        wrapped yet, i.e. comes from classes without invariants. Python's attribute lookup then finds that copy first.)
+        """
+        name = key.split(".")[0]
+        real = self.owner(cls, key)
+        for k in self.mro(cls):
+            if self.defines_name(k, name):
+                return None
+            if k == cls:
+                continue
+            ok = self.owner(k, key)
+            if self.eff_invs(k) and ok is not None and not self.eff_invs(ok):
+                return k if ok != real else None
+        return None
+
     def is_dbc(self, cls: str) -> bool:
         return any(self.classes[k].get("dbc", True) for k in self.mro(cls))
 
